@@ -114,7 +114,15 @@ impl Polytope {
         let pb = problem.solver;
         let vars = problem.vars;
 
-        match pb.solve() {
+        // The solver unwraps internally when a basis becomes numerically singular. A solver failure
+        // is recoverable for every caller (see ``PolytopeStatus::Error``), so it must not unwind.
+        let outcome = std::panic::catch_unwind(std::panic::AssertUnwindSafe(|| pb.solve()));
+        let outcome = match outcome {
+            Ok(outcome) => outcome,
+            Err(_) => return PolytopeStatus::Error("the LP solver panicked".to_string()),
+        };
+
+        match outcome {
             Ok(sol) => {
                 let wit = Array1::from_iter(vars.iter().map(|var| sol[*var]));
                 if wit.iter().any(|x| x.is_infinite() || x.is_nan()) {
